@@ -751,3 +751,232 @@ package ion
 //@ modifies nothing
 //@ ensures[C04] result == uint64(len(a))
 //@ safe[C04]
+
+// ---------------------------------------------------------------------------
+// Writers: the error is sticky (C12, C19). For every method of both writers: once w.err is
+// set the call returns it and leaves it in place; and (Finish excepted, which is the call
+// that reports) a call that returns an error has recorded it in w.err, so every later
+// call fails too.
+
+//@ func (*binaryWriter).WriteNull
+//@ modifies *
+//@ ensures[C12,C19] old(w.err) != nil ==> err == old(w.err) && w.err == old(w.err)
+//@ ensures[C12,C19] err != nil ==> w.err != nil
+
+//@ func (*binaryWriter).WriteNullType
+//@ modifies *
+//@ ensures[C12,C19] old(w.err) != nil ==> err == old(w.err) && w.err == old(w.err)
+//@ ensures[C12,C19] err != nil ==> w.err != nil
+
+//@ func (*binaryWriter).WriteBool
+//@ modifies *
+//@ ensures[C12,C19] old(w.err) != nil ==> err == old(w.err) && w.err == old(w.err)
+//@ ensures[C12,C19] err != nil ==> w.err != nil
+
+//@ func (*binaryWriter).WriteInt
+//@ modifies *
+//@ ensures[C12,C19] old(w.err) != nil ==> err == old(w.err) && w.err == old(w.err)
+//@ ensures[C12,C19] err != nil ==> w.err != nil
+
+//@ func (*binaryWriter).WriteUint
+//@ modifies *
+//@ ensures[C12,C19] old(w.err) != nil ==> err == old(w.err) && w.err == old(w.err)
+//@ ensures[C12,C19] err != nil ==> w.err != nil
+
+//@ func (*binaryWriter).WriteBigInt
+//@ modifies *
+//@ ensures[C12,C19] old(w.err) != nil ==> err == old(w.err) && w.err == old(w.err)
+//@ ensures[C12,C19] err != nil ==> w.err != nil
+
+//@ func (*binaryWriter).WriteFloat
+//@ modifies *
+//@ ensures[C12,C19] old(w.err) != nil ==> err == old(w.err) && w.err == old(w.err)
+//@ ensures[C12,C19] err != nil ==> w.err != nil
+
+//@ func (*binaryWriter).WriteDecimal
+//@ modifies *
+//@ ensures[C12,C19] old(w.err) != nil ==> err == old(w.err) && w.err == old(w.err)
+//@ ensures[C12,C19] err != nil ==> w.err != nil
+
+//@ func (*binaryWriter).WriteTimestamp
+//@ modifies *
+//@ ensures[C12,C19] old(w.err) != nil ==> err == old(w.err) && w.err == old(w.err)
+//@ ensures[C12,C19] err != nil ==> w.err != nil
+
+//@ func (*binaryWriter).WriteSymbol
+//@ modifies *
+//@ ensures[C12,C19] old(w.err) != nil ==> err == old(w.err) && w.err == old(w.err)
+//@ ensures[C12,C19] err != nil ==> w.err != nil
+
+//@ func (*binaryWriter).WriteSymbolFromString
+//@ modifies *
+//@ ensures[C12,C19] old(w.err) != nil ==> err == old(w.err) && w.err == old(w.err)
+//@ ensures[C12,C19] err != nil ==> w.err != nil
+
+//@ func (*binaryWriter).WriteString
+//@ modifies *
+//@ ensures[C12,C19] old(w.err) != nil ==> err == old(w.err) && w.err == old(w.err)
+//@ ensures[C12,C19] err != nil ==> w.err != nil
+
+//@ func (*binaryWriter).WriteClob
+//@ modifies *
+//@ ensures[C12,C19] old(w.err) != nil ==> err == old(w.err) && w.err == old(w.err)
+//@ ensures[C12,C19] err != nil ==> w.err != nil
+
+//@ func (*binaryWriter).WriteBlob
+//@ modifies *
+//@ ensures[C12,C19] old(w.err) != nil ==> err == old(w.err) && w.err == old(w.err)
+//@ ensures[C12,C19] err != nil ==> w.err != nil
+
+//@ func (*binaryWriter).BeginList
+//@ modifies *
+//@ ensures[C12,C19] old(w.err) != nil ==> err == old(w.err) && w.err == old(w.err)
+//@ ensures[C12,C19] err != nil ==> w.err != nil
+
+//@ func (*binaryWriter).EndList
+//@ modifies *
+//@ ensures[C12,C19] old(w.err) != nil ==> err == old(w.err) && w.err == old(w.err)
+//@ ensures[C12,C19] err != nil ==> w.err != nil
+
+//@ func (*binaryWriter).BeginSexp
+//@ modifies *
+//@ ensures[C12,C19] old(w.err) != nil ==> err == old(w.err) && w.err == old(w.err)
+//@ ensures[C12,C19] err != nil ==> w.err != nil
+
+//@ func (*binaryWriter).EndSexp
+//@ modifies *
+//@ ensures[C12,C19] old(w.err) != nil ==> err == old(w.err) && w.err == old(w.err)
+//@ ensures[C12,C19] err != nil ==> w.err != nil
+
+//@ func (*binaryWriter).BeginStruct
+//@ modifies *
+//@ ensures[C12,C19] old(w.err) != nil ==> err == old(w.err) && w.err == old(w.err)
+//@ ensures[C12,C19] err != nil ==> w.err != nil
+
+//@ func (*binaryWriter).EndStruct
+//@ modifies *
+//@ ensures[C12,C19] old(w.err) != nil ==> err == old(w.err) && w.err == old(w.err)
+//@ ensures[C12,C19] err != nil ==> w.err != nil
+
+//@ func (*binaryWriter).Finish
+//@ modifies *
+//@ ensures[C12,C19] old(w.err) != nil ==> err == old(w.err) && w.err == old(w.err)
+
+//@ func (*textWriter).WriteNull
+//@ modifies *
+//@ ensures[C12,C19] old(w.err) != nil ==> err == old(w.err) && w.err == old(w.err)
+//@ ensures[C12,C19] err != nil ==> w.err != nil
+
+//@ func (*textWriter).WriteNullType
+//@ modifies *
+//@ ensures[C12,C19] old(w.err) != nil ==> err == old(w.err) && w.err == old(w.err)
+//@ ensures[C12,C19] err != nil ==> w.err != nil
+
+//@ func (*textWriter).WriteBool
+//@ modifies *
+//@ ensures[C12,C19] old(w.err) != nil ==> err == old(w.err) && w.err == old(w.err)
+//@ ensures[C12,C19] err != nil ==> w.err != nil
+
+//@ func (*textWriter).WriteInt
+//@ modifies *
+//@ ensures[C12,C19] old(w.err) != nil ==> err == old(w.err) && w.err == old(w.err)
+//@ ensures[C12,C19] err != nil ==> w.err != nil
+
+//@ func (*textWriter).WriteUint
+//@ modifies *
+//@ ensures[C12,C19] old(w.err) != nil ==> err == old(w.err) && w.err == old(w.err)
+//@ ensures[C12,C19] err != nil ==> w.err != nil
+
+//@ func (*textWriter).WriteBigInt
+//@ modifies *
+//@ ensures[C12,C19] old(w.err) != nil ==> err == old(w.err) && w.err == old(w.err)
+//@ ensures[C12,C19] err != nil ==> w.err != nil
+
+//@ func (*textWriter).WriteFloat
+//@ modifies *
+//@ ensures[C12,C19] old(w.err) != nil ==> err == old(w.err) && w.err == old(w.err)
+//@ ensures[C12,C19] err != nil ==> w.err != nil
+
+//@ func (*textWriter).WriteDecimal
+//@ modifies *
+//@ ensures[C12,C19] old(w.err) != nil ==> err == old(w.err) && w.err == old(w.err)
+//@ ensures[C12,C19] err != nil ==> w.err != nil
+
+//@ func (*textWriter).WriteTimestamp
+//@ modifies *
+//@ ensures[C12,C19] old(w.err) != nil ==> err == old(w.err) && w.err == old(w.err)
+//@ ensures[C12,C19] err != nil ==> w.err != nil
+
+//@ func (*textWriter).WriteSymbol
+//@ modifies *
+//@ ensures[C12,C19] old(w.err) != nil ==> err == old(w.err) && w.err == old(w.err)
+//@ ensures[C12,C19] err != nil ==> w.err != nil
+
+//@ func (*textWriter).WriteSymbolFromString
+//@ modifies *
+//@ ensures[C12,C19] old(w.err) != nil ==> err == old(w.err) && w.err == old(w.err)
+//@ ensures[C12,C19] err != nil ==> w.err != nil
+
+//@ func (*textWriter).WriteString
+//@ modifies *
+//@ ensures[C12,C19] old(w.err) != nil ==> err == old(w.err) && w.err == old(w.err)
+//@ ensures[C12,C19] err != nil ==> w.err != nil
+
+//@ func (*textWriter).WriteClob
+//@ modifies *
+//@ ensures[C12,C19] old(w.err) != nil ==> err == old(w.err) && w.err == old(w.err)
+//@ ensures[C12,C19] err != nil ==> w.err != nil
+
+//@ func (*textWriter).WriteBlob
+//@ modifies *
+//@ ensures[C12,C19] old(w.err) != nil ==> err == old(w.err) && w.err == old(w.err)
+//@ ensures[C12,C19] err != nil ==> w.err != nil
+
+//@ func (*textWriter).BeginList
+//@ modifies *
+//@ ensures[C12,C19] old(w.err) != nil ==> err == old(w.err) && w.err == old(w.err)
+//@ ensures[C12,C19] err != nil ==> w.err != nil
+
+//@ func (*textWriter).EndList
+//@ modifies *
+//@ ensures[C12,C19] old(w.err) != nil ==> err == old(w.err) && w.err == old(w.err)
+//@ ensures[C12,C19] err != nil ==> w.err != nil
+
+//@ func (*textWriter).BeginSexp
+//@ modifies *
+//@ ensures[C12,C19] old(w.err) != nil ==> err == old(w.err) && w.err == old(w.err)
+//@ ensures[C12,C19] err != nil ==> w.err != nil
+
+//@ func (*textWriter).EndSexp
+//@ modifies *
+//@ ensures[C12,C19] old(w.err) != nil ==> err == old(w.err) && w.err == old(w.err)
+//@ ensures[C12,C19] err != nil ==> w.err != nil
+
+//@ func (*textWriter).BeginStruct
+//@ modifies *
+//@ ensures[C12,C19] old(w.err) != nil ==> err == old(w.err) && w.err == old(w.err)
+//@ ensures[C12,C19] err != nil ==> w.err != nil
+
+//@ func (*textWriter).EndStruct
+//@ modifies *
+//@ ensures[C12,C19] old(w.err) != nil ==> err == old(w.err) && w.err == old(w.err)
+//@ ensures[C12,C19] err != nil ==> w.err != nil
+
+//@ func (*textWriter).Finish
+//@ modifies *
+//@ ensures[C12,C19] old(w.err) != nil ==> err == old(w.err) && w.err == old(w.err)
+
+//@ func (*writer).FieldName
+//@ modifies *
+//@ ensures[C12] old(w.err) != nil ==> err == old(w.err) && w.err == old(w.err)
+//@ ensures[C12] err != nil ==> w.err != nil
+
+//@ func (*writer).Annotation
+//@ modifies *
+//@ ensures[C12] old(w.err) != nil ==> err == old(w.err) && w.err == old(w.err)
+//@ ensures[C12] err != nil ==> w.err != nil
+
+//@ func (*writer).Annotations
+//@ modifies *
+//@ ensures[C12] old(w.err) != nil ==> err == old(w.err) && w.err == old(w.err)
+//@ ensures[C12] err != nil ==> w.err != nil
